@@ -51,6 +51,7 @@ class Builder:
     def __init__(self):
         self.parts, self.n, self.expected, self.junk_start = [], 0, [], None
         self.layout = {}
+        self.comment_src = {}       # comment val -> (text as printed, marker width)
 
     def emit(self, s):
         self.parts.append(s)
@@ -297,6 +298,7 @@ def gen_properties(rng, nrec, exotic=False):
                 style = pick(rng, b, "comment_style", ["#", "!", "# ", "mixed"])
                 rendered = [(rng.choice("#!") if style == "mixed" else style) + l for l in lines]
                 cval = "\n".join(l[1:] for l in rendered)
+                b.comment_src[cval] = ("\n".join(rendered), 1)
                 b.item()
                 b.emit("\n".join(rendered) + "\n")
                 if cm == "attached":
@@ -492,6 +494,7 @@ def gen_ini(rng, nrec, exotic=False):
                 style = pick(rng, b, "comment_style", [";", "#", "; ", "mixed"])
                 rendered = [(rng.choice(";#") if style == "mixed" else style) + l for l in lines]
                 cval = "\n".join(l[1:] for l in rendered)
+                b.comment_src[cval] = ("\n".join(rendered), 1)
                 b.item()
                 b.emit("\n".join(rendered) + "\n")
                 if cm == "attached":
@@ -575,6 +578,7 @@ def gen_inc(rng, nrec, exotic=False):
                 lines = comment_lines(rng, b, exotic)
                 rendered = ["# " + l for l in lines]
                 cval = "\n".join(l[2:] for l in rendered)
+                b.comment_src[cval] = ("\n".join(rendered), 2)
                 b.item()
                 b.emit("\n".join(rendered) + "\n")
                 if cm == "attached":
@@ -687,8 +691,8 @@ def gen_po(rng, nrec, exotic=False):
         pre = pending if first else None
         attach_quirk = False
         if not direct:
-            cm = pick(rng, b, "comment", ["none", "none", "none", "attached", "attached", "detached",
-                                          "detached", "detached-one-blank-line"])
+            cm = pick(rng, b, "comment", ["none", "none", "attached", "detached"] +
+                      (["detached-one-blank-line"] * 2 if exotic else []))
             if cm != "none":
                 lines = comment_lines(rng, b)
                 rendered = [pick(rng, b, "comment_style", ["#", "# ", "#. ", "#: ", "#, "]) + l for l in lines]
@@ -875,12 +879,13 @@ def gen_android(rng, nrec, exotic=False):
         b.emit(nl + ctext)
         if header == "comment-blank":
             b.expected.append(["C", cval])
-            b.emit("\n\n")
+            b.emit("\n")           # one more newline follows in every case (see below)
         else:
             pending = cval         # no License rule in the Android parser: the comment attaches
     for i in range(nrec):
         first = i == 0
         direct = first and pending is not None
+        mark = b.n
         if not direct:
             b.emit("\n" * pick(rng, b, "blank_before", [0, 0, 1, 2]))
             ngar = 0 if rng.random() >= 0.18 else rng.choice([1, 1, 2])
@@ -931,6 +936,8 @@ def gen_android(rng, nrec, exotic=False):
                 else:
                     b.expected.append(["C", cval])
                     sep = rng.choice(["\n" + nl, "\n \n" + ind, "\n\n\n"])
+        if first and header == "comment-blank" and b.n == mark:
+            sep = nl                # the header comment stays detached: two newlines in all
         b.emit(sep)
         q = pick(rng, b, "attr_quote", ['"', '"', "'"])
         b.emit("<string name=" + q + key + q + ">" + src + "</string>")
@@ -1044,11 +1051,33 @@ def check_case(chk, case):
             alt = po_alt(case)
             if compare(alt, got) is None:
                 sig = "po-comment-attached-across-one-blank-line"
-        if case.get("exotic") and d[0] in ("attached-comment", "comment-val"):
+        if case.get("exotic") and fmt != "po" and compare(splitlines_alt(case), got) is None:
             sig = f"{fmt}-comment-val-splits-at-exotic-line-boundary"
         chk.fail(sig, {k: case[k] for k in ("format", "text", "expected", "layout") if k in case},
                  {"what": d[0], **d[1], "got_all": got})
     return es
+
+
+def splitlines_alt(case):
+    """expectation under the deviation: OffsetComment.val strips the marker per
+    str.splitlines(True) line, and str.splitlines also splits at VT, FF, FS, GS, RS, NEL,
+    LS, PS, so the characters after such a boundary are taken for a marker"""
+    src = case.get("comment_src", {})
+
+    def alt(v):
+        if v in src:
+            text, width = src[v]
+            return "".join(line[width:] for line in text.splitlines(True))
+        return v
+    out = []
+    for e in case["expected"]:
+        if e[0] == "C":
+            out.append(["C", alt(e[1])])
+        elif e[0] == "E" and e[4] is not None:
+            out.append(e[:4] + [alt(e[4])])
+        else:
+            out.append(e)
+    return out
 
 
 def po_alt(case):
@@ -1064,6 +1093,7 @@ def make_case(fmt, rng, nrec, exotic=False):
     case = {"format": fmt, "text": text, "expected": expected, "layout": b.layout, "records": nrec}
     if exotic:
         case["exotic"] = True
+        case["comment_src"] = b.comment_src
     if fmt == "po" and getattr(b, "one_blank_idx", None):
         # positions (in the expected list) of the comments printed with ONE blank line after them
         case["one_blank_detached"] = len(b.one_blank_idx)
@@ -1198,9 +1228,6 @@ def run(chk, runner_ok):
         for i in range(per_fmt):
             nrec = i % 9
             cases.append(make_case(fmt, rng, nrec))
-        if fmt in ("properties", "ini", "inc"):
-            for i in range(chk.n(30, 300)):
-                cases.append(make_case(fmt, rng, 1 + i % 4, exotic=True))
         texts, impl, reqs, contract_bad = [], [], [], 0
         for c in cases:
             es = check_case(chk, c)
@@ -1253,12 +1280,27 @@ def run(chk, runner_ok):
             impl_w = [v if fmt == "ftl" else [0, v] for v in impl]
             chk.correspond(f"PARSE-VAL-{fmt}", texts, impl_w, [wrap(o) for o in outs],
                            classify=lambda t, fmt=fmt: None)
+    deviation_streams(chk)
     direct_suites(chk, model)
     chk.trusted += [
         "html.unescape (DTD val): oracle parameter of the model, table computed by CPython per case",
         "fluent.syntax (resource body, spans, comment content) and xml.dom.minidom (child list, toxml, "
         "nodeValue): oracle inputs of the Fluent / Android glue models",
     ]
+
+
+def deviation_streams(chk):
+    """two layout families kept apart from the main stream (they run last, so that their
+    failures cannot crowd out others in the replay file): comments containing line
+    boundaries other than newline (properties, ini, inc: OffsetComment.val splits at them),
+    and PO comments followed by exactly one blank line"""
+    rng = chk.rng
+    for fmt in ("properties", "ini", "inc", "po"):
+        for i in range(chk.n(40, 400)):
+            c = make_case(fmt, rng, 1 + i % 4, exotic=True)
+            check_case(chk, c)
+            chk.evaluations += 1
+            chk.hist("deviation_stream", fmt)
 
 
 def direct_suites(chk, model):
